@@ -191,6 +191,10 @@ Proof.
   destruct oe as [e'|]; rewrite B in SP; [|discriminate]. injection SP as <-. reflexivity.
 Qed.
 
+(* build_index, accepted or refused, changes no pool and not the registry (only the index) *)
+Lemma index_changes_no_pool st : st_heap (fst (hstep st HIndex)) = st_heap st /\ st_reg (fst (hstep st HIndex)) = st_reg st.
+Proof. cbn [hstep]. destruct (index_from _ _ _). split; reflexivity. Qed.
+
 (* a read-only query changes nothing at all *)
 Lemma query_changes_nothing st q : fst (hstep st (HQuery q)) = st.
 Proof. reflexivity. Qed.
